@@ -28,6 +28,9 @@ Failed(tr, stage) == \E k \in 1..Len(tr.exc) : tr.exc[k].stage = stage
 AbstractClauses(tr, stage) ==
   LET d == tr.doc IN
   CASE stage = "ToYang" ->
+         \* ja = the caller's document object looked at again after legacy_to_yang returned: still the same document
+         (IF ~HasDoc(tr.ja) \/ tr.ja.extra # <<>> \/ Core(tr.ja) # d THEN {"InputDocumentUntouched"} ELSE {})
+         \cup
          (IF Failed(tr, "l2y") \/ ~HasDoc(tr.y) THEN {"ConvertsToYang"} ELSE
             (IF tr.y.extra # <<>> THEN {"NoForeignKeysInYang"} ELSE {})
             \cup (IF Core(tr.y) # L2Y(d) THEN {"YangFormAsSpecified"} ELSE {})
